@@ -229,6 +229,13 @@ def Heap.svHop (E : HEnv F D Mat Vec) (h : Heap F D Mat Vec) (s : Nat) (g : F) :
       (if hopOk (h1.view E i) (.frame g) then h1.hop E i (.frame g) else h)
     else h1
 
+/-- the caller overwrites state `s` IN PLACE: component assignment (`sv[i] = v`, `sv[:] = …`, `sv *= k`), another form
+(`sv.form = …`: the same point, given to the model by its cartesian coordinates) or another date (`sv.date = d`).
+No cell of any covariance is read or written: a `Cov` holds a private copy of the state it was made for
+(`Cov.__new__` and `sv.cov = c` both go through the `orb` setter, which stores `value.copy(form="cartesian")`). -/
+def Heap.svSet (h : Heap F D Mat Vec) (s : Nat) (d : D) (x : Vec) : Heap F D Mat Vec :=
+  { h with sv := upd h.sv s { h.sv s with date := d, x := x } }
+
 /-- the assignment inside `svHop` raised -/
 def Heap.svHopOk (E : HEnv F D Mat Vec) (h : Heap F D Mat Vec) (s : Nat) (g : F) : Bool :=
   let v := h.sv s
